@@ -789,6 +789,20 @@ func fixExpressionTypes(exp syntax.Exp, tname syntax.TypeId, lookup *syntax.Type
 	}
 }
 
+// memberTypeId returns the type of the member of the given struct type with
+// the given id.  If the struct type is not known or has no such member, the
+// given default is returned.
+func memberTypeId(st *syntax.StructType, id string, tname syntax.TypeId) syntax.TypeId {
+	if st != nil {
+		for _, member := range st.Members {
+			if member.Id == id {
+				return member.Tname
+			}
+		}
+	}
+	return tname
+}
+
 func convertToExp(parser *syntax.Parser, split bool, val json.Marshaler,
 	tname syntax.TypeId, lookup *syntax.TypeLookup) (syntax.ValExp, error) {
 	switch val := val.(type) {
@@ -821,8 +835,12 @@ func convertToExp(parser *syntax.Parser, split bool, val json.Marshaler,
 			Kind:  syntax.KindMap,
 			Value: make(map[string]syntax.Exp, len(val)),
 		}
+		var st *syntax.StructType
 		if possibleStructType(tname, lookup) {
 			res.Kind = syntax.KindStruct
+			if lookup != nil {
+				st, _ = lookup.Get(tname).(*syntax.StructType)
+			}
 		} else if tname.MapDim > 0 {
 			tname.ArrayDim = tname.MapDim - 1
 			tname.MapDim = 0
@@ -830,7 +848,7 @@ func convertToExp(parser *syntax.Parser, split bool, val json.Marshaler,
 		for _, k := range sortedKeys(val) {
 			v := val[k]
 			if e, err := convertToExp(parser, false,
-				v, tname, lookup); err != nil {
+				v, memberTypeId(st, k, tname), lookup); err != nil {
 				return &res, err
 			} else {
 				res.Value[k] = e
@@ -842,8 +860,12 @@ func convertToExp(parser *syntax.Parser, split bool, val json.Marshaler,
 			Kind:  syntax.KindMap,
 			Value: make(map[string]syntax.Exp, len(val)),
 		}
+		var st *syntax.StructType
 		if possibleStructType(tname, lookup) {
 			res.Kind = syntax.KindStruct
+			if lookup != nil {
+				st, _ = lookup.Get(tname).(*syntax.StructType)
+			}
 		} else if tname.MapDim > 0 {
 			tname.ArrayDim = tname.MapDim - 1
 			tname.MapDim = 0
@@ -851,7 +873,7 @@ func convertToExp(parser *syntax.Parser, split bool, val json.Marshaler,
 		for _, k := range sortedKeys(val) {
 			v := val[k]
 			if e, err := convertToExp(parser, false,
-				v, tname, lookup); err != nil {
+				v, memberTypeId(st, k, tname), lookup); err != nil {
 				return &res, err
 			} else {
 				res.Value[k] = e
